@@ -1000,6 +1000,8 @@ async fn build_authoritative_response(
         });
 
         if is_referral {
+            // the zone is not an authority for names at or below the zone cut
+            message.metadata.authoritative = false;
             message.authorities.extend(lookup_records.iter().cloned());
         } else {
             message.answers.extend(lookup_records.iter().cloned());
